@@ -3,7 +3,7 @@ reference counts are true, after every outer event of every history (direct
 operations, committed and aborted batches, no-op updates, restarts with
 regenerated counts, any lru-cache size)."""
 from ..core import Violation, deep
-from ..hgen import HistoryGen, make_pool, make_values, probe_keys
+from ..hgen import HistoryGen, make_pool, make_values, probe_keys, rare_huge
 from ..hworld import HWorld
 from ..core import hx, unhx
 
@@ -150,7 +150,7 @@ class World(HWorld):
 
 
 def generate(rng):
-    pool = make_pool(rng)
+    pool = make_pool(rng, style=rare_huge(rng))
     values = make_values(rng)
     probes = probe_keys(rng, pool, extra=2)
     cache = rng.choice([0, 1, 2, 8, 4096])
